@@ -386,6 +386,12 @@ func sortHostsReverseHostPort(hosts []string) []string {
 	for i, h := range hosts {
 		hosts[i] = ReverseHostPort(h)
 	}
+	// an exact host is more specific than every pattern, also than one
+	// whose wildcard matches nothing at all (*foo.com for foo.com) and
+	// which is the longer and therefore the greater string
+	sort.SliceStable(hosts, func(i, j int) bool {
+		return !strings.ContainsAny(hosts[i], "*?[{") && strings.ContainsAny(hosts[j], "*?[{")
+	})
 	return hosts
 }
 
